@@ -620,6 +620,12 @@ func verifToken(c verifCase) verifOut {
 
 func TestVerifC03(t *testing.T) {
 	logx.Disable()
+	// PeriodLimit with Align() reads the zone of time.Now(): the run chooses the process' zone
+	if v := os.Getenv("VERIF_TZ_OFFSET"); v != "" {
+		if off, err := strconv.Atoi(v); err == nil {
+			time.Local = time.FixedZone("verif", off)
+		}
+	}
 	data, err := os.ReadFile(os.Getenv("VERIF_IN"))
 	if err != nil {
 		t.Fatal(err)
